@@ -280,6 +280,52 @@ func (r *ghRun) appendHammer(a map[string]interface{}) {
 	}
 }
 
+// waitUntil polls pred for at most 5 s.
+func ghWaitUntil(pred func() bool) bool {
+	deadline := time.Now().Add(5 * time.Second)
+	for !pred() {
+		if time.Now().After(deadline) {
+			return false
+		}
+		time.Sleep(50 * time.Microsecond)
+	}
+	return true
+}
+
+// heldLookup: a lookup of a future index i whose chain fetch is held back by the node while the updater appends the
+// sets lo..hi (hi beyond i); then the node answers and the lookup returns.  Scripted, no timing luck: the append
+// starts only when the node reports the waiting request.
+func (r *ghRun) heldLookup(a map[string]interface{}) {
+	i, lo, hi := vhInt(a, "i", 0), vhInt(a, "lo", 0), vhInt(a, "hi", 0)
+	r.chain.HoldNext(1)
+	r.trace.Emit(r.sc, "LookupCall", map[string]interface{}{"p": "h", "i": i}, nil)
+	var res map[string]interface{}
+	done := make(chan struct{})
+	go func() {
+		res = r.lookup(i)
+		close(done)
+	}()
+	finished := func() bool {
+		select {
+		case <-done:
+			return true
+		default:
+			return false
+		}
+	}
+	ghWaitUntil(func() bool { return r.chain.Held() > 0 || finished() })
+	r.trace.Emit(r.sc, "AppendCall", map[string]interface{}{"p": "m", "lo": lo, "hi": hi}, nil)
+	pv := r.appendSets(lo, hi)
+	ar := map[string]interface{}{"p": "m"}
+	if pv != nil {
+		ar["panic"] = fmt.Sprint(pv)
+	}
+	r.trace.Emit(r.sc, "AppendRet", ar, r.snapshot())
+	r.chain.Release()
+	<-done
+	r.trace.Emit(r.sc, "LookupRet", map[string]interface{}{"p": "h", "i": i, "res": res}, r.snapshot())
+}
+
 func ghRunScenario(trace *vhTrace, keys *vhKeys, sc vhScenario) {
 	init := sc.Bodies["init"]
 	up := vhBool(init, "up")
@@ -325,6 +371,8 @@ func ghRunScenario(trace *vhTrace, keys *vhKeys, sc vhScenario) {
 				a["panic"] = fmt.Sprint(pv)
 			}
 			trace.Emit(r.sc, "AppendRet", a, r.snapshot())
+		case "HeldLookup":
+			r.heldLookup(st.A)
 		case "Hammer":
 			r.hammer(st.A)
 		case "AppendHammer":
